@@ -493,7 +493,7 @@ func reportFootnotes(context *layoutContext, footnotesHeight pr.Float) {
 	}
 	// Report and count footnotes
 	reportedFootnotes := 0
-	for context.currentFootnoteArea.MarginHeight() > footnotesHeight {
+	for len(context.currentPageFootnotes) != 0 && context.currentFootnoteArea.MarginHeight() > footnotesHeight {
 		context.reportFootnote(context.currentPageFootnotes[len(context.currentPageFootnotes)-1])
 		reportedFootnotes += 1
 	}
